@@ -155,6 +155,41 @@ pub struct OptNoSkip {
     s: Option<Inner>,
 }
 
+/// A string that serializes itself through `Serializer::collect_str` (what `format_args!`, display-as-string
+/// adapters and many `serialize_with` helpers do) instead of `serialize_str`.
+pub struct Shown(pub String);
+impl Serialize for Shown {
+    fn serialize<S: serde::Serializer>(&self, s: S) -> Result<S::Ok, S::Error> {
+        s.collect_str(&self.0)
+    }
+}
+
+#[derive(Serialize)]
+pub enum ShownChoice {
+    #[serde(rename = "$text")]
+    T(Shown),
+    El(Shown),
+}
+
+#[derive(Serialize)]
+pub struct ShownHolder {
+    #[serde(rename = "@a")]
+    a: Shown,
+    #[serde(rename = "@o")]
+    o: Option<Shown>,
+    e: Shown,
+    #[serde(rename = "$value")]
+    v: Vec<ShownChoice>,
+}
+
+#[derive(Serialize)]
+pub struct ShownText {
+    #[serde(rename = "@l")]
+    l: Vec<Shown>,
+    #[serde(rename = "$text")]
+    t: Shown,
+}
+
 #[derive(Serialize)]
 pub struct Seqs {
     vv: Vec<Vec<String>>,
@@ -252,6 +287,12 @@ fn extra_case(idx: usize, s: &str, keys: &str, cfg: SerCfg) -> Option<(String, R
             m.insert("@a".into(), vec![s.to_string(), s.to_string()]);
             ("map with list values (element list and attribute list)".into(), ser_root(&m, cfg, "m"))
         }
+        i if i == 5 * nk + 20 => (
+            "strings written through collect_str: attribute, optional attribute, element, $text variant and element variant in $value".into(),
+            ser(&ShownHolder { a: Shown(s.to_string()), o: Some(Shown(s.to_string())), e: Shown(s.to_string()), v: vec![ShownChoice::T(Shown(s.to_string())), ShownChoice::El(Shown(s.to_string()))] }, cfg),
+        ),
+        i if i == 5 * nk + 21 => ("strings written through collect_str: attribute list and $text".into(), ser(&ShownText { l: vec![Shown(s.to_string()), Shown(s.to_string())], t: Shown(s.to_string()) }, cfg)),
+        i if i == 5 * nk + 22 => ("top-level $text variant written through collect_str".into(), ser_root(&ShownChoice::T(Shown(s.to_string())), cfg, "r")),
         i if i < 5 * nk + 20 => {
             let key = KEY_POOL[i - 4 * nk - 20];
             let m = TwoStep(vec![("y".to_string(), "0".to_string()), (key.to_string(), s.to_string()), ("z".to_string(), "1".to_string())]);
@@ -260,7 +301,7 @@ fn extra_case(idx: usize, s: &str, keys: &str, cfg: SerCfg) -> Option<(String, R
         _ => return None,
     })
 }
-const N_EXTRA: usize = 5 * 18 + 20;
+const N_EXTRA: usize = 5 * 18 + 23;
 
 fn ser_root<T: Serialize>(v: &T, cfg: SerCfg, root: &str) -> Result<String, String> {
     guarded_mut(|| -> Result<String, String> {
